@@ -290,6 +290,33 @@ theorem clamp_witness :
   · exact (clamped_classes_between_grow (1 : ℚ) 1 2 2 1 7 0 1 1 3 one_pos one_pos two_pos one_pos
       (by simp only [volDG]; norm_num) (by simp only [rcritProposal, volDG]; norm_num) (by norm_num)).2
 
+/-! ### the critical radius the KWN model records (`_calcNucleationRate`, traced on a real model object)
+
+`rcritKWN f γ dG Vm E` is what `_calcNucleationRate` obtains from `nucleationBarrier` and stores in `pData.Rcrit`
+(unclamped path), as a function of the chemical driving force; `f` and `E` are the shape factor and the strain energy
+at the precipitate's (constant) aspect ratio — the same `f`, `E` that enter `gExtra`. -/
+
+/-- the recorded critical radius is the proposal `2fγ/(dG/Vm − E)` with the precipitate's own shape factor -/
+theorem rcritKWN_eq (f γ dG Vm E : α) : rcritKWN f γ dG Vm E = rcritProposal f γ (volDG dG Vm E) := by
+  simp only [rcritKWN, rcritProposal, volDG]
+
+/-- **Gibbs–Thomson at the recorded critical radius** -/
+theorem gibbsThomson_at_recorded_Rcrit (dG Vm E f γ : α) (hVm : Vm ≠ 0) (hf : f ≠ 0) (hγ : γ ≠ 0)
+    (hd : volDG dG Vm E ≠ 0) :
+    dG - gExtra Vm E f γ (rcritKWN f γ dG Vm E) = 0 := by
+  rw [rcritKWN_eq]; exact gibbsThomson_at_Rcrit dG Vm E f γ hVm hf hγ hd
+
+/-- **the recorded critical radius is where the recorded growth rate changes sign** (multicomponent, unclamped):
+both sides traced through the real model methods (`_calcNucleationRate`, `_singleGrowthMulti`) -/
+theorem kwn_multi_sign_at_traced_Rcrit (kf mc R dG Vm Va E f γ : α) (hkf : 0 < kf) (hmc : 0 < mc) (hR : 0 < R)
+    (hVm : 0 < Vm) (hd : 0 < volDG dG Vm E) :
+    (0 < growthMultiKWN kf mc R (volDG dG Vm E) Vm Va E f γ ↔ rcritKWN f γ dG Vm E < R) ∧
+    (growthMultiKWN kf mc R (volDG dG Vm E) Vm Va E f γ < 0 ↔ R < rcritKWN f γ dG Vm E) ∧
+    (growthMultiKWN kf mc R (volDG dG Vm E) Vm Va E f γ = 0 ↔ R = rcritKWN f γ dG Vm E) := by
+  rw [rcritKWN_eq]
+  exact ⟨kwn_multi_pos_iff kf mc R dG Vm Va E f γ hkf hmc hR hVm hd, kwn_multi_neg_iff kf mc R dG Vm Va E f γ hkf hmc hR hVm hd,
+    kwn_multi_zero_iff kf mc R dG Vm Va E f γ hkf hmc hR hVm hd⟩
+
 /-! ### binary growth law: sign of the supersaturation -/
 
 theorem growthBinary_factored (kf D eff x xa xb Va Vb R : α) (hden : Va * xb / Vb - xa ≠ 0) (heff : eff ≠ 0)
@@ -393,6 +420,17 @@ theorem binary_below_Rcrit_shrinks (DF xα : α → α) (hinv : ∀ g, DF (xα g
   rw [gExtra_at_Rcrit (DF x) Vm E f γ hVm.ne' hf.ne' hγ.ne' hd.ne'] at hlt
   exact (binary_conditional_offset DF xα 0 (by simpa using hinv) hmono kf D eff x xb Va Vb Vm E f γ R hkf hD heff
     hR0 hden).2 (by simpa using hlt)
+
+/-- the binary conditional stated against the critical radius `_calcNucleationRate` records -/
+theorem binary_sign_at_traced_Rcrit (DF xα : α → α) (hinv : ∀ g, DF (xα g) = g) (hmono : ∀ a b, a ≤ b → DF a ≤ DF b)
+    (kf D eff x xb Va Vb Vm E f γ R : α) (hkf : 0 < kf) (hD : 0 < D) (heff : 0 < eff)
+    (hVm : 0 < Vm) (hf : 0 < f) (hγ : 0 < γ) (hd : 0 < volDG (DF x) Vm E) (hR0 : 0 < R)
+    (hden : 0 < Va * xb / Vb - xα (gExtra Vm E f γ R)) :
+    (rcritKWN f γ (DF x) Vm E < R → 0 < growthBinary kf D eff x (xα (gExtra Vm E f γ R)) xb Va Vb R) ∧
+    (R < rcritKWN f γ (DF x) Vm E → growthBinary kf D eff x (xα (gExtra Vm E f γ R)) xb Va Vb R < 0) := by
+  rw [rcritKWN_eq]
+  exact ⟨fun h => binary_above_Rcrit_grows DF xα hinv hmono kf D eff x xb Va Vb Vm E f γ R hkf hD heff hVm hf hγ hd h hden,
+    fun h => binary_below_Rcrit_shrinks DF xα hinv hmono kf D eff x xb Va Vb Vm E f γ R hkf hD heff hVm hf hγ hd hR0 h hden⟩
 
 /-- the same conclusion from the other pair of hypotheses named in the property: `xα` strictly increasing in `g`
 and the matrix composition lies on the curve (`x = xα g⋆`, whence `DF x = g⋆`) -/
